@@ -54,6 +54,9 @@ var c11Variants = []c11RuleVariant{
 	{"listed", func(l string) []string { return []string{l} }},
 	{"star", func(string) []string { return []string{"*"} }},
 	{"star+other", func(l string) []string { return []string{"*", l} }},
+	// several entries, written by hand in mixed case and in no particular order (byte order and
+	// case-folded order differ)
+	{"several-mixed-case", func(l string) []string { return []string{"Zulu-" + l, l, "Bravo-" + l, "mike-" + l} }},
 }
 
 func c11Run(c *fw.Ctx) {
@@ -297,7 +300,7 @@ func init() {
 	fw.Register(&fw.Check{
 		ID:    "C11",
 		Level: "exploration",
-		Rule: "full product on a proxy built like cmd/sso-proxy (validators exactly as proxy.New builds them): rule sets = every combination of {absent, listed value, lone *, * with another value} for addresses, domains and groups (63 policies) x 18 emails (the listed domain with its dot replaced, exact, case-varied, prefix/suffix look-alikes, plus-tagged and dotted variants of a listed address, look-alike domain, sub-domain, domain as prefix, unlisted, two @, empty local part, non-ASCII local part / domain) x directory {in listed group, in none, error 500, unavailable 503, rate-limited 429, only in groups whose names extend a listed name, only in groups whose names are prefixes of a listed name, only in groups whose names differ from the listed one in letter case}; " +
+		Rule: "full product on a proxy built like cmd/sso-proxy (validators exactly as proxy.New builds them): rule sets = every combination of {absent, listed value, lone *, * with another value, four hand-written entries in mixed case and no particular order} for addresses, domains and groups (124 policies) x 18 emails (the listed domain with its dot replaced, exact, case-varied, prefix/suffix look-alikes, plus-tagged and dotted variants of a listed address, look-alike domain, sub-domain, domain as prefix, unlisted, two @, empty local part, non-ASCII local part / domain) x directory {in listed group, in none, error 500, unavailable 503, rate-limited 429, only in groups whose names extend a listed name, only in groups whose names are prefixes of a listed name, only in groups whose names differ from the listed one in letter case}; " +
 			"thorough adds rule variants {listed value in upper case, another value + the listed one} and emails {empty, leading/trailing space, case-varied sub-domain, the bare listed domain, a listed address used as local part}; " +
 			"each case logs in through the real callback, sends a request while no check is due, one after the validity TTL and one after the access token ran out and was refreshed (the scripted authenticator honours only the latest token it issued); oracle = the documented any-of semantics and the same verdict at all three stages (emails whose reading the statement leaves open: consistency only); " +
 			"distinct_nontrivial = distinct (rule set, email class, directory, verdict triple) among cases admitted at login",
